@@ -59,7 +59,7 @@ CHECKS = {
    technique="runtime monitoring: canary/taint monitor over all renderings of loaded and derived projects", design="4/C20"),
  "C01": dict(category="fault_enumeration",
    text="Every load runs in a worker process watched for death (fatal errors, stack exhaustion), a CPU budget per case (the bounded restatement of 'never loops forever') and resident memory, with return-value monitors for recovered panics (keyed by crash site), project XOR error, planted cycles accepted and planted missing files not named. Workloads: every attribute path derived from the tested tree's JSON schema (and every node of the full example) replaced by each of 18 YAML node kinds, loaded alone / as override / as base / through extends in and across files / through include, under every single Skip*/Resolve option (thorough: all pairs and a 2% sample of all 512 combinations); seeded byte/token mutations of the repository's testdata corpus; alias, merge-key, extends, include and depends_on cycles (every digraph with a cycle on <=4 services); every subset of the files a generated project references removed, each file replaced by a directory or a dangling symlink, and (thorough) made unreadable by strace fault injection; size/depth stress.",
-   note="Which error is reported is not asserted beyond 'names a missing file' and 'rejects a planted cycle'. CPU budget 20 s (quick) / 60 s (thorough) per load against about 30 ms for the slowest legitimate load on this tree.",
+   note="Which error is reported is not asserted beyond 'names a missing file' and 'rejects a planted cycle'. CPU budget 30 s (quick) / 60 s (thorough) per load; an ordinary load takes about 10 ms, the slowest stress case about 3 CPU-s on this tree.",
    technique="runtime monitoring: process monitors (exit status, CPU time, RSS) + return-value invariants over schema-driven node-kind mutation, byte mutation, cycle and file-fault enumeration (strace injection)", design="4/C01"),
 }
 PLANNED = {}
